@@ -346,6 +346,7 @@ def run(ctx):
     appropriate(ctx, tm)
     double_escape_tests(ctx, tm)
     cdata_terminator(ctx, tm)
+    cdata_nul(ctx, tm)
     from . import c14
     c14.trie_rules(ctx, "C02.8")
     emission(ctx, tm)
@@ -469,6 +470,17 @@ def cdata_terminator(ctx, tm):
                     "cdataSectionState ends the section at ]]> but removes %s instead of exactly the two brackets: text such as "
                     "`a]]]>` loses (or keeps) brackets that belong to the content" % ("`%s`" % t["strip"] if t["strip"] else "nothing"))],
             detail=t)
+
+
+def cdata_nul(ctx, tm):
+    """In a CDATA section the standard's tokenizer emits U+0000 unchanged (tree construction replaces it in foreign content);
+    a tokenizer that replaces it itself emits different character data."""
+    r = ctx.r
+    f = ctx.repo.func(REL, "HTMLTokenizer.cdataSectionState")
+    r.check("C02.4", not getattr(tm, "cdata_nul_replaced", False), "cdata-nul-replaced", f.where,
+            "cdataSectionState replaces U+0000 by U+FFFD itself: the character token for `<![CDATA[a\\0b]]>` is 'a\\ufffdb' where the "
+            "standard's tokenizer emits 'a\\0b' (the tree is the same: foreign content replaces NUL during tree construction)",
+            detail={"replaced_in_tokenizer": getattr(tm, "cdata_nul_replaced", False)})
 
 
 def double_escape_tests(ctx, tm):
